@@ -6,19 +6,27 @@ ContactlessFrontend over SimTagDevice, talk to the ISO/IEC 14443-4 PICC-rule car
 runs an echo application: every command gets a response that is a function of the command bytes with a chosen length,
 and the card logs every execution.  A block level fault script assigns to the n-th frame exchange of the observed
 APDU exchange one of
-    L  command lost (card sees nothing, reader times out)        C  command corrupted (card ignores it -> time-out)
-    l  response lost (card acted, reader times out)              c  response corrupted (reader gets TransmissionError)
-or lets the card leave the field from exchange j on ("dead").  WTX requests replace chosen card answers.
+    L  command lost (card sees nothing, reader times out)        C  command destroyed on the way (card sees nothing valid) and
+    l  response lost (card acted, reader times out)                 the reader's receiver reports a TransmissionError
+    c  response corrupted (reader gets TransmissionError)        d  the card's previous I- or S-block arrives (again) in place of
+or lets the card leave the field from exchange j on ("dead").       the answer to this frame (duplicate / late frame)
+WTX requests replace chosen card answers (WTXM 1..59, optionally with the power level indication b8-b7 of ISO/IEC 14443-4 7.3;
+"timed": the card answers at the end of the FWT x WTXM it asked for).  Storm cards: endless S(WTX), R(ACK) with the other
+block number for every I-block, every I-block lost.  "pre": a first exchange under its own script that fails or recovers,
+then the exchange under test on the same tag object under its script (pairs).
 
 Monitors
-  exec      the card executed the APDU under test at most once, and nothing it was not sent
+  exec      the card executed the APDU under test at most once, and nothing it was not sent (pairs: also the APDU of the
+            first exchange at most once over both exchanges)
   response  a returned value is exactly the card's response to *that* APDU (not truncated / extended / stale);
-            a follow-up exchange in the same session returns its own response
+            a follow-up exchange in the same session returns its own response; after a failed exchange the next call returns
+            its own response or raises Type4TagCommandError (stale-response/after-error/...)
   error     every failure is a Type4TagCommandError (status word errors carry the SW)
   frame     every block the reader sent has len(block)+2 <= FSC and len(block) <= device max_send
-  recovery  a single fault per block exchange (faults at least three frame exchanges apart), retry budget >= 1:
-            the exchange must succeed
-  bounded   the exchange ends within a bounded number of frames (also when the card is gone)
+  recovery  no block exchange sees more errors than the retry budget (fault positions less than three frame exchanges apart
+            count as one cluster; every cluster <= budget; no fault at all: every FWI, budget 0 included): the exchange must
+            succeed.  Not claimed with duplicated frames, for storm cards, after a failed exchange, when the card is gone
+  bounded   the exchange ends within a bounded number of frames (also when the card is gone; storm cards: 400 frames)
 """
 import hashlib
 import itertools
@@ -31,24 +39,43 @@ RULE = ("case = (activation config: Type 4A/4B, FSCI 0-8, FWI 0-14, device max_s
         "FSCI and FWI: in the fault enumeration every second 4B configuration, plus the enumeration of every (FSCI, FWI, "
         "SFGI) with pairwise different values on a card that uses its whole FWT) x "
         "(command length, response length around multiples of the block payload, transceive / send_apdu, status word) x "
-        "(WTX positions) x (fault script over the frame exchanges of the APDU exchange); scripts are enumerated "
-        "exhaustively for <= 2 faults (thorough <= 3) over {L,l,C,c} x positions for exchanges of <= 10 (16) frames, "
-        "every 'card gone from frame j', every single WTX position x every single fault, random scripts with up to 5 "
-        "faults beyond; distinct by the whole descriptor; non-trivial if a fault was consumed, a WTX was sent or "
-        "chaining took place")
+        "(WTX positions, WTXM, power level indication, timed) x (fault script over the frame exchanges of the APDU exchange); "
+        "scripts are enumerated exhaustively for <= 2 faults (thorough <= 3) over {L,l,C,c} x positions for exchanges of <= 10 "
+        "(16) frames, every single duplicated block (d) at every position, every 'card gone from frame j', every single WTX "
+        "position x every single fault, bursts of 2..budget+1 errors on one block (stride 1 and 2) at every block, a lost "
+        "chained I-block for every chain length 2..24, storm cards, random scripts with up to 5 faults beyond; pairs: every "
+        "(block, kind) way to fail / to recover the first exchange x every single fault of the second; distinct by the whole "
+        "descriptor (ids removed); non-trivial if a fault was consumed, a WTX was sent or chaining took place")
 ASSUMPTIONS = ["in the ATS variant and ATQB variant cases the card answers at the end of its frame waiting time: a time-out handed to "
                "exchange() that is shorter than the card's FWT loses the response (elsewhere time-out values are not judged)",
                "the simulated reader device polls like nfc.clf.rcs380 (SENSB_REQ 05 00 10: extended ATQB supported), so the 13-byte "
                "extended ATQB of ISO/IEC 14443-3 7.9.4 is a conformant answer; FSC and FWI are the card model's own configuration",
                "vf.sim.t4t.T4TCard follows the PICC rules of ISO/IEC 14443-4 7.5.4 (block numbering, rules 9-13, D, E)",
-               "a corrupted command is ignored by the card (it cannot tell it from noise) and shows as a time-out",
+               "a corrupted command is ignored by the card (it cannot tell it from noise); the reader sees a time-out (L) or, when "
+               "the disturbance also hits its receiver, a TransmissionError (C)",
+               "a duplicated / late frame is the last block the card transmitted and only an I- or S-block: a repeated R(ACK) "
+               "carries the block number that PCD rule 6 answers with a retransmission, which no reader can tell from a genuine one",
+               "S(WTX) coding of ISO/IEC 14443-4 7.3: request INF = power level indication b8-b7 | WTXM b6-b1; the response carries the "
+               "same WTXM with b8-b7 = 00; the cards of the power level cases do not answer a response with another coding (RFU "
+               "value: protocol error) except the 'lenient-card' cases; a timed card answers FWT x WTXM (at most FWT_MAX) after the S(WTX) response, a shorter time-out given to "
+               "exchange() loses that answer",
+               "after a failed (chained) command the card keeps the blocks it received: the I-blocks of the next command continue "
+               "that chain (nothing in ISO/IEC 14443-4 but a new activation ends a chain)",
                "the retry budget is the FWT derived one documented in DESIGN C12: min(int(1 s / FWT), 5) retries",
                "frames carry no CRC at the Device.exchange boundary; FSC accounts for it with +2",
                "SFGT is not judged"]
 REQUIRED = ["exchanges", "executions_checked", "responses_compared", "frame_size_checked", "recovered", "reported_t4error",
             "recovery_required_checked", "pcd_I_chain", "card_I_chain", "pcd_RNAK", "pcd_RACK", "card_SWTX",
             "card_retransmit", "type4a", "type4b", "followup_checked", "card_gone_cases", "type4b_extended_atqb",
-            "type4b_extended_atqb_pcd_chaining", "atqb_variant_exchanges", "atqb_variant_extended"]
+            "type4b_extended_atqb_pcd_chaining", "atqb_variant_exchanges", "atqb_variant_extended",
+            "ats_variant_exchanges", "wtx_exchanges", "clean_success",
+            "fault_L", "fault_l", "fault_C", "fault_c", "fault_d", "fault_d_answer_differs_from_duplicate",
+            "pair_after_failed_exchange_checked", "pair_after_error_card_had_executed", "pair_after_error_card_had_not_executed",
+            "pair_after_error_abandoned_command_chain_checked", "pair_after_error_last_block_received_checked",
+            "pair_after_error_last_block_not_received_checked", "pair_after_recovery_checked",
+            "burst_within_budget_checked", "budget0_fault_free_checked", "lost_pcd_chained_iblock", "long_chain_loss_cases",
+            "wtx_power_level_exchanges", "wtx_power_level_lenient_card", "wtx_power_level_strict_card", "wtx_timed_exchanges", "wtx_timed_extensions_granted",
+            "storm_wtx", "storm_rack", "storm_iloss", "storm_ended_with_t4error"]
 
 FSC_TABLE = (16, 24, 32, 40, 48, 64, 96, 128, 256)
 
@@ -106,10 +133,20 @@ def timed_activate(card, max_send, max_recv):
 
     class TimedDevice(SimTagDevice):
         fwt = 4096 / 13.56E6 * (2 ** card.fwi)
+        fwt_max = 4096 / 13.56E6 * (2 ** 14)
         short_timeouts = 0
+        wtx_waits = 0
 
         def send_cmd_recv_rsp(self, target, data, timeout):
-            if self.n_commands >= 1 and timeout is not None and timeout < self.fwt:
+            short = self.n_commands >= 1 and timeout is not None and timeout < self.fwt
+            if (not short and timeout is not None and data is not None and len(data) == 2 and data[0] == 0xF2
+                    and card.wtx_pending is not None and data[1] & 0x3F == card.wtx_pending[2] & 0x3F):
+                # an S(WTX) response that acknowledges the pending request: the card uses the whole temporary frame
+                # waiting time FWT x WTXM (at most FWT_MAX) it asked for (ISO/IEC 14443-4 7.3) before it answers
+                need = min((card.wtx_pending[2] & 0x3F) * self.fwt, self.fwt_max)
+                self.wtx_waits += 1
+                short = timeout < need * (1 - 1e-9)
+            if short:
                 self.short_timeouts += 1
                 inner = self.script
                 self.script = lambda n, d: ("rsp_lost", nfc.clf.TimeoutError)
@@ -180,7 +217,9 @@ class Session(object):
 
 
 def classify_wrong(got, exp, prev):
-    if prev is not None and got == prev and got != exp:
+    """prev: an earlier response of the same session, or a list of them"""
+    prevs = prev if isinstance(prev, (list, tuple)) else ([] if prev is None else [prev])
+    if got != exp and any(got == p for p in prevs):
         return "stale"
     if len(got) < len(exp) and exp.startswith(got):
         return "truncated"
@@ -191,14 +230,48 @@ def classify_wrong(got, exp, prev):
     return "other-length"
 
 
+def clusters_within(pos, bud):
+    """every cluster of fault positions (neighbours less than three frame exchanges apart, i.e. possibly on the same
+    block or on the recovery of the same block) has at most `bud` members: each block then sees at most `bud` errors"""
+    n, last = 0, None
+    for p in pos:
+        n = n + 1 if (last is not None and p - last < 3) else 1
+        if n > bud:
+            return False
+        last = p
+    return True
+
+
+def last_block_received(frames):
+    """did the card receive the last block of the reader that advances the block numbers (I-block or R(ACK); R(NAK) only
+    asks) - after an exchange the reader gave up this decides whether the two block numbers are still in step"""
+    last, got = None, False
+    for _n, cmd, rsp in frames:
+        if cmd is None or not (cmd[0] & 0xE2 == 0x02 or cmd[0] & 0xF6 == 0xA2):
+            continue
+        if cmd != last:
+            last, got = cmd, False
+        if not (isinstance(rsp, str) and (rsp.startswith("cmd_lost") or rsp == "dead")):
+            got = True
+    return got
+
+
+STORM_BOUND = 400        # frames: 64 S(WTX) requests per block are tolerated by the reader, each may cost a retry cycle
+
+
 def run_case(case, R, count=True):
-    """execute one case; returns the list of (signature, text) violations (also recorded in R)"""
+    """execute one case; returns the list of (signature, text) violations (also recorded in R)
+
+    case: cfg, x (the exchange under test) with script / dead_from / wtx* / storm keys at the top level;
+          warm: fault free single block exchanges first;  pre: an exchange (dict with x, script, wtx ...) that runs under
+          its own fault script before the one under test (pair cases: the exchange under test follows a failed or a
+          recovered exchange on the same tag object);  follow: fault free exchange after a successful one"""
     import nfc.clf
     import nfc.tag
     import nfc.tag.tt4 as tt4
     from vf.sim.tagdevice import SimTagDevice
     from vf.sim.t4t import exc_tag_sig as exc_sig
-    cfg, x = case["cfg"], case["x"]
+    cfg = case["cfg"]
     viol = []
 
     def bad(sig, what):
@@ -217,202 +290,341 @@ def run_case(case, R, count=True):
         return viol
     card, dev = S.card, S.dev
     fsc = card.fsc
-    prev_rsp = None
+    answers = {}                         # frame number -> what the card really answered (None: mute)
+    card_command = card.command
+
+    def spy(data):
+        r = card_command(data)
+        answers[dev.n_commands - 1] = r
+        return r
+
+    card.command = spy
+    history = []                         # card responses of earlier exchanges of this session (with and without SW)
     for w in range(case.get("warm", 0)):
         fn, apdu, exp = S.build({"via": "transceive", "clen": 5 + w, "rlen": 4, "id": 0xFF00 + w})
         try:
-            prev_rsp = bytes(fn())
+            history.append(bytes(fn()))
         except tt4.Type4TagCommandError as e:
             # a fault free single block exchange directly after activation (no script is installed yet)
             wctx = ("atqb-extended" if cfg.get("sfgi") is not None else "atqb-basic") if cfg.get("timed") else "plain"
             bad("fault-free-exchange-failed/%s" % wctx, "the fault free exchange before the one under test failed: errno %s" % e.errno)
             return viol
-    # ---- the exchange under test
-    fn, apdu, exp = S.build(x)
-    base = dev.n_commands
-    log0 = len(dev.log)
-    card.reset_logs()
-    script = {int(p): k for p, k in case.get("script", [])}
-    dead_from = case.get("dead_from")
-    consumed = set()
     TO, TE = nfc.clf.TimeoutError, nfc.clf.TransmissionError
-
-    def hook(n, data):
-        i = n - base
-        if dead_from is not None and i >= dead_from:
-            consumed.add("dead")
-            return ("cmd_lost", TO)
-        k = script.get(i)
-        if k is None:
-            return None
-        consumed.add(i)
-        if k in "LC":
-            return ("cmd_lost", TO)
-        return ("rsp_lost", TO if k == "l" else TE)
-
-    wtx = set(case.get("wtx", []))
-    wtxm = case.get("wtxm", 1)
-    rounds = case.get("wtx_rounds", 1)
-    wtx_kinds = set()
-
-    def wtx_fn(c, out, rnd):
-        if (c.answer_no - 1) in wtx and rnd < rounds:
-            if out[0] & 0xE2 == 0x02:
-                wtx_kinds.add("rsp-chain" if c.resp_block_no >= 2 else "rsp-first")
-            else:
-                wtx_kinds.add("cmd-chain")
-            return wtxm
-        return 0
-
-    card.wtx_fn = wtx_fn if wtx else None
-    dev.script = hook
-    dev.command_bound = base + 60 + 12 * (nblocks(cfg, x) + len(wtx) * rounds + len(script))
-    outcome = None
-    try:
-        got = fn()
-        outcome = ("ret", bytes(got) if got is not None else None)
-    except tt4.Type4TagCommandError as e:
-        outcome = ("t4err", e.errno)
-    except SimTagDevice.Bound:
-        outcome = ("bound", None)
-    except BaseException as e:          # noqa
-        outcome = ("escape", e)
-    dev.script = None
-    card.wtx_fn = None
-    dev.command_bound = None
-    nfaults = len([c for c in consumed if c != "dead"])
-    executed = [a for a, r in card.apdu_log]
-    n_exec = executed.count(apdu) if apdu else 0
-    foreign = [a for a in executed if a != apdu]
-    if not apdu:
-        ctx = "empty-apdu"
-    elif "rsp-chain" in wtx_kinds:
-        ctx = "wtx-rsp-chain"
-    elif wtx_kinds:
-        ctx = "wtx"
-    else:
-        ctx = "plain"
-    if cfg.get("ats") is not None:
-        ctx = ats_label(cfg["ats"])
-        if count:
-            R.count("ats_variant_exchanges")
-            R.count("ats_variant_short_timeouts", dev.short_timeouts)
     ext_atqb = cfg["kind"] == "B" and cfg.get("sfgi") is not None
-    if cfg.get("timed") and cfg["kind"] == "B":
-        ctx = "atqb-extended" if ext_atqb else "atqb-basic"
-        if count:
-            R.count("atqb_variant_exchanges")
-            R.count("atqb_variant_extended" if ext_atqb else "atqb_variant_basic")
-            R.count("atqb_variant_short_timeouts", dev.short_timeouts)
+    executed_before = []                 # APDUs of earlier exchanges under a script: [(apdu, times executed so far)]
 
-    # ---- wire monitor
-    n_frames = 0
-    for n, cmd, rsp in dev.log[log0:]:
-        if cmd is None:
-            continue
-        n_frames += 1
-        if len(cmd) + 2 > fsc:
-            bad("frame-size/block+crc>FSC", "reader sent a block of %d+2 bytes to a card with FSC %d" % (len(cmd), fsc))
-        if len(cmd) > cfg["max_send"]:
-            bad("frame-size/block>device-max-send", "block of %d bytes, device max_send %d" % (len(cmd), cfg["max_send"]))
-        if count:
-            pcb = cmd[0]
-            if pcb & 0xE2 == 0x02:
-                R.count("pcd_I_chain" if pcb & 0x10 else "pcd_I")
-            elif pcb & 0xF6 == 0xA2:
-                R.count("pcd_RACK")
-            elif pcb & 0xF6 == 0xB2:
-                R.count("pcd_RNAK")
-            elif pcb & 0xF7 == 0xF2:
-                R.count("pcd_SWTX")
-            else:
-                R.count("pcd_other_block")
-    if count:
-        R.count("frame_size_checked", n_frames)
-        R.count("frames", n_frames)
-        R.max("frames_per_exchange", n_frames)
-        for k, v in card.blocks.items():
-            if v and k.startswith("tx_"):
-                R.count("card_" + k[3:], v)
-        R.count("card_retransmit", card.blocks["retransmit"])
-        R.count("card_ignored_blocks", card.blocks["ignored"])
-        R.count("exchanges")
-        R.count("type4a" if cfg["kind"] == "A" else "type4b")
-        if ext_atqb:
-            R.count("type4b_extended_atqb")
-            R.seen("extended_atqb_sfgi", cfg["sfgi"])
-            R.max("extended_atqb_sensb_res_len", len(card.sensb_res))
-            if any(c is not None and c[0] & 0xF2 == 0x12 for _n, c, _r in dev.log[log0:]):
-                R.count("type4b_extended_atqb_pcd_chaining")
-        R.seen("fsci", cfg["fsci"])
-        R.seen("fwi", cfg["fwi"])
-        R.seen("retry_budget", budget(cfg["fwi"]))
-        R.seen("context", ctx)
-        for c in consumed:
-            if c != "dead":
-                R.count("fault_" + script[c])
-                R.seen("fault_position", c)
-        if wtx_kinds:
-            R.count("wtx_exchanges")
-            for k in wtx_kinds:
-                R.count("wtx_" + k)
-        if dead_from is not None:
-            R.count("card_gone_cases")
+    def one_exchange(st, pfx):
+        """one exchange under the fault script of `st`; pfx: '' or 'after-error/' ... (what preceded it in this session)"""
+        x = st["x"]
+        fn, apdu, exp = S.build(x)
+        base = dev.n_commands
+        log0 = len(dev.log)
+        card.reset_logs()
+        script = {int(p): k for p, k in st.get("script", [])}
+        dead_from = st.get("dead_from")
+        storm = st.get("storm")
+        storm_from = st.get("storm_from", 0)
+        consumed = set()
+        dups = {}
 
-    # ---- exec monitor
-    if count:
-        R.count("executions_checked")
-        R.count("card_executions", len(executed))
-    if n_exec > 1:
-        bad("executed-twice/%s" % ctx, "the card executed the same APDU %d times" % n_exec)
-    if foreign:
-        bad("foreign-apdu-executed/%s" % ctx, "the card executed %d APDU(s) that were never sent, first %s (sent %s)"
-            % (len(foreign), foreign[0][:24].hex(), apdu[:24].hex()))
+        def hook(n, data):
+            i = n - base
+            if dead_from is not None and i >= dead_from:
+                consumed.add("dead")
+                return ("cmd_lost", TO)
+            if storm == "iloss" and i >= storm_from and data and data[0] & 0xE2 == 0x02:
+                consumed.add("storm")
+                return ("cmd_lost", TO)
+            k = script.get(i)
+            if k is None:
+                return None
+            if k == "d":
+                # the card's previous block arrives (again) in place of the answer to this frame.  Only I- and S-blocks:
+                # a repeated R(ACK) carries the block number that asks for a retransmission (PCD rule 6), which no
+                # reader can tell from a genuine one
+                dup = card.last
+                if dup is None or dup[0] & 0xE6 == 0xA2:
+                    if count:
+                        R.count("fault_d_not_applicable")
+                    return None
+                consumed.add(i)
+                dups[i] = bytes(dup)
+                return ("replace", bytes(dup))
+            consumed.add(i)
+            if k == "L":
+                return ("cmd_lost", TO)
+            if k == "C":
+                return ("cmd_lost", TE)
+            return ("rsp_lost", TO if k == "l" else TE)
 
-    # ---- response / error monitor
-    ok = False
-    kind = outcome[0]
-    if kind == "ret":
-        got = outcome[1]
-        if count:
-            R.count("responses_compared")
-        if exp[0] == "ret":
-            if got != exp[1]:
-                bad("wrong-response/%s/%s" % (classify_wrong(got or b"", exp[1], prev_rsp), ctx),
-                    "returned %d bytes, the card's response has %d" % (len(got or b""), len(exp[1])))
-            elif n_exec != 1 and apdu:
-                bad("returned-but-not-executed/%s" % ctx, "a response was returned but the card executed the APDU %d times" % n_exec)
-            else:
-                ok = True
+        wtx = set(st.get("wtx", []))
+        wtxm = st.get("wtxm", 1)
+        rounds = st.get("wtx_rounds", 1)
+        if storm == "wtx":
+            rounds = 10 ** 9
+        wtx_kinds = set()
+
+        def wtx_fn(c, out, rnd):
+            if ((c.answer_no - 1) in wtx or (storm == "wtx" and c.answer_no - 1 >= storm_from)) and rnd < rounds:
+                if out[0] & 0xE2 == 0x02:
+                    wtx_kinds.add("rsp-chain" if c.resp_block_no >= 2 else "rsp-first")
+                else:
+                    wtx_kinds.add("cmd-chain")
+                return wtxm
+            return 0
+
+        def rack_storm(c, data):
+            if dev.n_commands - 1 - base >= storm_from and data[0] & 0xE2 == 0x02:
+                consumed.add("storm")
+                return bytes([0xA2 | ((data[0] & 1) ^ 1)])
+            return None
+
+        card.wtx_fn = wtx_fn if (wtx or storm == "wtx") else None
+        card.wtx_power = st.get("wtx_pl", 0)
+        card.wtx_strict = bool(st.get("wtx_strict", True))
+        card.block_hook = rack_storm if storm == "rack" else None
+        dev.script = hook
+        if storm or (st.get("wtx_pl") and card.wtx_strict):
+            dev.command_bound = base + STORM_BOUND
         else:
-            bad("status-word-ignored/%s" % ctx, "card answered SW %04X, send_apdu returned data" % exp[1])
-    elif kind == "t4err":
-        if exp[0] == "sw" and outcome[1] == exp[1] and n_exec == 1:
-            ok = True                      # the complete response is the status word; it was delivered as the documented error
-        elif outcome[1] > 0 and not (exp[0] == "sw" and outcome[1] == exp[1]):
-            bad("wrong-response/status-word/%s" % ctx, "Type4TagCommandError carries SW %04X the card never sent" % outcome[1])
-        if count and not ok:
-            R.count("reported_t4error")
-            R.seen("reported_errno", outcome[1])
-    elif kind == "bound":
-        bad("nontermination/%s%s" % (ctx, "/card-gone" if dead_from is not None else ""),
-            "exchange did not end within %d frames" % (dev.n_commands - base))
-    else:
-        e = outcome[1]
-        bad("escape/%s/%s" % (ctx, exc_sig(e)), "exchange raised %r instead of Type4TagCommandError" % (e,))
+            dev.command_bound = base + 60 + 12 * (nblocks(cfg, x) + len(wtx) * rounds + len(script))
+        short0 = getattr(dev, "short_timeouts", 0)
+        outcome = None
+        try:
+            got = fn()
+            outcome = ("ret", bytes(got) if got is not None else None)
+        except tt4.Type4TagCommandError as e:
+            outcome = ("t4err", e.errno)
+        except SimTagDevice.Bound:
+            outcome = ("bound", None)
+        except BaseException as e:          # noqa
+            outcome = ("escape", e)
+        dev.script = None
+        card.wtx_fn = None
+        card.block_hook = None
+        dev.command_bound = None
+        nfaults = len([c for c in consumed if isinstance(c, int)])
+        executed = [a for a, r in card.apdu_log]
+        n_exec = executed.count(apdu) if apdu else 0
+        earlier = [a for a, _n in executed_before]
+        foreign = [a for a in executed if a != apdu and a not in earlier]
+        if not apdu:
+            ctx = "empty-apdu"
+        elif "rsp-chain" in wtx_kinds:
+            ctx = "wtx-rsp-chain"
+        elif wtx_kinds:
+            ctx = "wtx"
+        else:
+            ctx = "plain"
+        if cfg.get("ats") is not None:
+            ctx = ats_label(cfg["ats"])
+            if count:
+                R.count("ats_variant_exchanges")
+                R.count("ats_variant_short_timeouts", dev.short_timeouts - short0)
+        if cfg.get("timed") and cfg["kind"] == "B" and not st.get("wtx_timed"):
+            ctx = "atqb-extended" if ext_atqb else "atqb-basic"
+            if count:
+                R.count("atqb_variant_exchanges")
+                R.count("atqb_variant_extended" if ext_atqb else "atqb_variant_basic")
+                R.count("atqb_variant_short_timeouts", dev.short_timeouts - short0)
+        if wtx_kinds and st.get("wtx_pl") and not storm:
+            # the card checks the coding of the S(WTX) response (b8-b7 = 00) unless it is a 'lenient' one
+            ctx = "wtx-power-level" + ("" if card.wtx_strict else "/lenient-card")
+        if st.get("wtx_timed"):
+            ctx = "wtx-timed"
+        if wtx_kinds and card.wtx_strict and card.wtx_rsp_pl_bits and not storm:
+            ctx += "/power-level-echoed-in-response"
+        if storm:
+            ctx = "storm-" + storm
+        ctx = pfx + ctx
 
-    # ---- recovery clause
-    pos = sorted(c for c in consumed if c != "dead")
-    single_per_block = all(b - a >= 3 for a, b in zip(pos, pos[1:]))
-    must = (dead_from is None and single_per_block and budget(cfg["fwi"]) >= 1 and apdu)
-    if must:
+        # ---- wire monitor
+        n_frames = 0
+        for n, cmd, rsp in dev.log[log0:]:
+            if cmd is None:
+                continue
+            n_frames += 1
+            if len(cmd) + 2 > fsc:
+                bad("frame-size/block+crc>FSC", "reader sent a block of %d+2 bytes to a card with FSC %d" % (len(cmd), fsc))
+            if len(cmd) > cfg["max_send"]:
+                bad("frame-size/block>device-max-send", "block of %d bytes, device max_send %d" % (len(cmd), cfg["max_send"]))
+            if count:
+                pcb = cmd[0]
+                if pcb & 0xE2 == 0x02:
+                    R.count("pcd_I_chain" if pcb & 0x10 else "pcd_I")
+                elif pcb & 0xF6 == 0xA2:
+                    R.count("pcd_RACK")
+                elif pcb & 0xF6 == 0xB2:
+                    R.count("pcd_RNAK")
+                elif pcb & 0xF7 == 0xF2:
+                    R.count("pcd_SWTX")
+                else:
+                    R.count("pcd_other_block")
+        n_dup_eff = len([i for i, d in dups.items() if answers.get(base + i) != d])
         if count:
-            R.count("recovery_required_checked")
-        if kind == "t4err" and not ok:
-            bad("not-recovered/%s" % ctx, "%d fault(s), at most one per block exchange, retry budget %d: "
-                "Type4TagCommandError errno %s" % (len(pos), budget(cfg["fwi"]), outcome[1]))
-    if ok and count:
-        R.count("recovered" if nfaults else "clean_success")
+            for n, cmd, rsp in dev.log[log0:]:
+                if cmd is not None and cmd[0] & 0xF2 == 0x12 and isinstance(rsp, str) and rsp.startswith("cmd_lost"):
+                    R.count("lost_pcd_chained_iblock")
+                    R.seen("lost_chained_iblock_chain_length", -(-wire_len(x) // pcd_chunk(cfg)))
+        if count:
+            R.count("frame_size_checked", n_frames)
+            R.count("frames", n_frames)
+            R.max("frames_per_exchange", n_frames)
+            for k, v in card.blocks.items():
+                if v and k.startswith("tx_"):
+                    R.count("card_" + k[3:], v)
+            R.count("card_retransmit", card.blocks["retransmit"])
+            R.count("card_ignored_blocks", card.blocks["ignored"])
+            R.count("exchanges")
+            R.count("type4a" if cfg["kind"] == "A" else "type4b")
+            if ext_atqb:
+                R.count("type4b_extended_atqb")
+                R.seen("extended_atqb_sfgi", cfg["sfgi"])
+                R.max("extended_atqb_sensb_res_len", len(card.sensb_res))
+                if any(c is not None and c[0] & 0xF2 == 0x12 for _n, c, _r in dev.log[log0:]):
+                    R.count("type4b_extended_atqb_pcd_chaining")
+            R.seen("fsci", cfg["fsci"])
+            R.seen("fwi", cfg["fwi"])
+            R.seen("retry_budget", budget(cfg["fwi"]))
+            R.seen("context", ctx)
+            for c in consumed:
+                if isinstance(c, int):
+                    R.count("fault_" + script[c])
+                    R.seen("fault_position", c)
+            if dups:
+                R.count("fault_d_answer_differs_from_duplicate", n_dup_eff)
+                for d in dups.values():
+                    R.seen("duplicated_block_kind", "I" if d[0] & 0xE2 == 0x02 else "S" if d[0] & 0xC0 == 0xC0 else "other")
+            if wtx_kinds:
+                R.count("wtx_exchanges")
+                for k in wtx_kinds:
+                    R.count("wtx_" + k)
+                if st.get("wtx_pl") and not storm:
+                    R.count("wtx_power_level_exchanges")
+                    R.count("wtx_power_level_strict_card" if card.wtx_strict else "wtx_power_level_lenient_card")
+                    R.count("wtx_responses_with_b8b7_set", card.wtx_rsp_pl_bits)
+                    R.seen("wtx_request_inf", (st["wtx_pl"] & 3) << 6 | wtxm & 0x3F)
+                if st.get("wtx_timed"):
+                    R.count("wtx_timed_exchanges")
+                    R.count("wtx_timed_extensions_granted", len(card.wtx_accepted))
+                    R.count("wtx_timed_short_timeouts", dev.short_timeouts - short0)
+                    R.seen("wtx_timed_wtxm", wtxm)
+            if dead_from is not None:
+                R.count("card_gone_cases")
+            if storm:
+                R.count("storm_" + storm)
+                R.max("storm_frames", n_frames)
+
+        # ---- exec monitor
+        if count:
+            R.count("executions_checked")
+            R.count("card_executions", len(executed))
+        if n_exec > 1:
+            bad("executed-twice/%s" % ctx, "the card executed the same APDU %d times" % n_exec)
+        for i, (a, n0) in enumerate(executed_before):
+            n1 = executed.count(a)
+            if n1:
+                executed_before[i] = (a, n0 + n1)
+                if n0 + n1 > 1:
+                    bad("executed-twice/earlier-apdu/%s" % ctx, "the APDU of the preceding exchange was executed %d times in all" % (n0 + n1))
+                elif count:
+                    R.count("earlier_apdu_executed_late")
+        if foreign:
+            bad("foreign-apdu-executed/%s" % ctx, "the card executed %d APDU(s) that were never sent, first %s (sent %s)"
+                % (len(foreign), foreign[0][:24].hex(), apdu[:24].hex()))
+
+        # ---- response / error monitor
+        ok = False
+        kind = outcome[0]
+        if kind == "ret":
+            got = outcome[1]
+            if count:
+                R.count("responses_compared")
+            if exp[0] == "ret":
+                if got != exp[1]:
+                    cls = classify_wrong(got or b"", exp[1], history)
+                    if cls == "stale" and pfx.startswith("after-error/"):
+                        bad("stale-response/%s" % ctx, "after a failed exchange the response of an earlier APDU was returned for the next APDU")
+                    else:
+                        bad("wrong-response/%s/%s" % (cls, ctx),
+                            "returned %d bytes, the card's response has %d" % (len(got or b""), len(exp[1])))
+                elif n_exec != 1 and apdu:
+                    bad("returned-but-not-executed/%s" % ctx, "a response was returned but the card executed the APDU %d times" % n_exec)
+                else:
+                    ok = True
+            else:
+                bad("status-word-ignored/%s" % ctx, "card answered SW %04X, send_apdu returned data" % exp[1])
+        elif kind == "t4err":
+            if exp[0] == "sw" and outcome[1] == exp[1] and n_exec == 1:
+                ok = True                      # the complete response is the status word; it was delivered as the documented error
+            elif outcome[1] > 0 and not (exp[0] == "sw" and outcome[1] == exp[1]):
+                bad("wrong-response/status-word/%s" % ctx, "Type4TagCommandError carries SW %04X the card never sent" % outcome[1])
+            if count and not ok:
+                R.count("reported_t4error")
+                R.seen("reported_errno", outcome[1])
+        elif kind == "bound":
+            bad("nontermination/%s%s" % (ctx, "/card-gone" if dead_from is not None else ""),
+                "exchange did not end within %d frames" % (dev.n_commands - base))
+        else:
+            e = outcome[1]
+            bad("escape/%s/%s" % (ctx, exc_sig(e)), "exchange raised %r instead of Type4TagCommandError" % (e,))
+
+        # ---- recovery clause: no block exchange sees more errors than the retry budget -> the exchange must succeed
+        # (without any fault: at every FWI).  Not after a failed exchange, not with duplicated frames, not for storm cards
+        pos = sorted(c for c in consumed if isinstance(c, int))
+        bud = budget(cfg["fwi"])
+        must = bool(dead_from is None and not storm and not dups and not pfx.startswith("after-error/") and apdu and clusters_within(pos, bud))
+        if must:
+            if count:
+                R.count("recovery_required_checked")
+                if not pos and bud == 0:
+                    R.count("budget0_fault_free_checked")
+                if any(b - a < 3 for a, b in zip(pos, pos[1:])):
+                    R.count("burst_within_budget_checked")
+                    R.max("burst_within_budget_faults", len(pos))
+            if kind == "t4err" and not ok:
+                bad("not-recovered/%s" % ctx, "%d fault(s), no block exchange with more than the retry budget of %d: "
+                    "Type4TagCommandError errno %s" % (len(pos), bud, outcome[1]))
+        if storm and kind == "t4err" and count:
+            R.count("storm_ended_with_t4error")
+        if ok and count:
+            R.count("recovered" if nfaults else "clean_success")
+        rsp_full = rsp_for(apdu, x["rlen"], bytes(x.get("sw", b"\x90\x00"))) if apdu else b""
+        history.extend([rsp_full, rsp_full[:-2]])
+        executed_before.append((apdu, n_exec))
+        nontrivial = bool(nfaults or wtx_kinds or dead_from is not None or storm or n_frames > 1)
+        return {"ok": ok, "kind": kind, "nfaults": nfaults, "exp": exp, "apdu": apdu, "ctx": ctx, "nontrivial": nontrivial,
+                "frames": n_frames, "errno": outcome[1] if kind == "t4err" else None, "log": dev.log[log0:]}
+
+    # ---- an exchange under its own fault script before the one under test (pair cases)
+    pfx = ""
+    pre_nontrivial = False
+    if case.get("pre"):
+        r0 = one_exchange(case["pre"], "")
+        pre_nontrivial = r0["nontrivial"]
+        if r0["kind"] in ("bound", "escape"):
+            return viol, True, r0["frames"]
+        if r0["ok"]:
+            pfx = "after-recovery/" if r0["nfaults"] else "after-clean/"
+        else:
+            # the reader gave up; when that happened in the middle of a chained command the card still holds the part it got
+            if len(card.rx):
+                pfx = "after-error/abandoned-command-chain/"
+            else:
+                pfx = "after-error/last-block-%sreceived/" % ("" if last_block_received(r0["log"]) else "not-")
+        if count:
+            R.count("pair_" + pfx[:-1].replace("-", "_").replace("/", "_") + "_checked")
+            if not r0["ok"]:
+                R.count("pair_after_failed_exchange_checked")
+                R.seen("pair_first_exchange_errno", r0["errno"])
+                R.count("pair_after_error_card_had_executed" if executed_before[-1][1] else "pair_after_error_card_had_not_executed")
+                R.seen("pair_first_exchange_failed_by", "".join(sorted({k for _p, k in case["pre"].get("script", [])})))
+
+    # ---- the exchange under test
+    r = one_exchange(case, pfx)
+    ok, ctx, exp = r["ok"], r["ctx"], r["exp"]
+    if count and pfx:
+        R.count("pair_second_ok" if ok else "pair_second_not_ok")
 
     # ---- follow-up in the same session: block numbers still in step, nothing stale
     if ok and case.get("follow", True):
@@ -423,8 +635,8 @@ def run_case(case, R, count=True):
             if got2 != exp2[1]:
                 cls = "stale" if (exp[0] == "ret" and got2 == exp[1]) else classify_wrong(got2, exp2[1], None)
                 bad("followup-wrong-response/%s/%s" % (cls, ctx), "the exchange after a successful one returned a wrong response")
-            elif [a for a, r in card.apdu_log].count(apdu2) != 1:
-                bad("followup-executed-not-once/%s" % ctx, "follow-up executed %d times" % [a for a, r in card.apdu_log].count(apdu2))
+            elif [a for a, r_ in card.apdu_log].count(apdu2) != 1:
+                bad("followup-executed-not-once/%s" % ctx, "follow-up executed %d times" % [a for a, r_ in card.apdu_log].count(apdu2))
         except tt4.Type4TagCommandError as e:
             bad("followup-failed/%s" % ctx, "fault free exchange after a successful one failed: errno %s" % e.errno)
         except SimTagDevice.Bound:
@@ -434,8 +646,7 @@ def run_case(case, R, count=True):
         dev.command_bound = None
         if count:
             R.count("followup_checked")
-    nontrivial = bool(nfaults or wtx_kinds or dead_from is not None or n_frames > 1)
-    return viol, nontrivial, n_frames
+    return viol, bool(r["nontrivial"] or pre_nontrivial), r["frames"]
 
 
 # ---------------------------------------------------------------------------------------------------------------
@@ -564,7 +775,127 @@ def run(desc, R, rng):
                     x = {"via": "transceive", "clen": 70, "rlen": 70, "id": next(ident) & 0xFFFF}
                     emit(R, {"cfg": cfg, "x": x, "warm": 0})
                     emit(R, {"cfg": cfg, "x": x, "warm": 0, "script": [[0, "l"]]})
+    new_classes(desc, R, rng, ident)
     R.exhaustive = False
+
+
+PAIR_FWI = [(4, 12, 11), (8, 13, 10), (0, 14, 11), (9, 12, 10)]       # retry budgets 5, 0, 1 | 3
+
+
+def plain_cfg(kind, fsci, fwi, salt=0, **kw):
+    cfg = {"kind": kind, "fsci": fsci, "fwi": fwi, "max_send": 290, "max_recv": 290, "chunk": None}
+    if kind == "B" and salt & 1 and fwi != fsci:
+        cfg["sfgi"] = pick_sfgi(fsci, fwi, salt)
+    cfg.update(kw)
+    return cfg
+
+
+def single_fault_scripts(nb, kinds, extra=2):
+    return [[]] + [[[p, k]] for p in range(nb + extra) for k in kinds]
+
+
+def new_classes(desc, R, rng, ident):
+    thorough = desc.get("tier") == "thorough"
+    sh = desc["shard"]
+    kind, fsci = desc["combos"][0]
+    nid = lambda: next(ident) & 0xFFFF       # noqa
+
+    def shape(cfg, cblocks, rblocks, via="transceive"):
+        mc, mr = pcd_chunk(cfg), card_chunk(cfg)
+        clen = 5 if cblocks == 1 else (cblocks - 1) * mc + 2
+        rlen = 4 if rblocks == 1 else (rblocks - 1) * mr + 1
+        return {"via": via, "clen": clen, "rlen": rlen, "id": nid()}
+
+    # ---- pairs: an exchange that fails (more errors on one block than the retry budget, or a duplicated block), then a
+    # second APDU on the same tag object, fault free and under every single fault
+    fwis = PAIR_FWI[sh % 4]
+    for ci, fwi in enumerate(fwis if thorough else fwis[:2]):
+        cfg = plain_cfg(kind, fsci, fwi, salt=sh + ci)
+        b = budget(fwi)
+        for cb, rb in ((1, 1), (2, 1), (1, 2)) + (((2, 2), (3, 1)) if thorough else ()):
+            x1 = shape(cfg, cb, rb)
+            nb1 = nblocks(cfg, x1)
+            fails = [[[p + j, k] for j in range(b + 1)] for p in range(nb1) for k in ("lcLC" if thorough else "lcL")]
+            fails += [[[p, "d"]] for p in range(nb1)]
+            for fscript in fails:
+                for cb2, rb2, kinds in ((1, 1, "LlCc"), (2, 2, "LlCc" if thorough else "Ll")):
+                    x2 = shape(cfg, cb2, rb2)
+                    for s2 in single_fault_scripts(nblocks(cfg, x2), kinds):
+                        emit(R, {"cfg": cfg, "warm": 1, "pre": {"x": dict(x1, id=nid()), "script": fscript},
+                                 "x": dict(x2, id=nid()), "script": s2})
+    # ---- pairs: a recovered exchange N, then a faulted exchange N+1 (block number bookkeeping after R(ACK)/R(NAK) recovery)
+    fwi = FWI_CYCLE[(sh * 7 + 3) % len(FWI_CYCLE)]
+    if budget(fwi) == 0:
+        fwi = 4
+    cfg = plain_cfg(kind, fsci, fwi, salt=sh)
+    for cb, rb in ((1, 1), (2, 1), (1, 2), (2, 2)) if thorough else ((2, 1), (1, 2), (1, 1)):
+        x1 = shape(cfg, cb, rb)
+        for s1 in single_fault_scripts(nblocks(cfg, x1), "LlCc", extra=1)[1:]:
+            for cb2, rb2 in ((2, 2), (1, 1)) if thorough else ((2, 2),):
+                x2 = shape(cfg, cb2, rb2)
+                for s2 in single_fault_scripts(nblocks(cfg, x2), "LlCc" if thorough else "Llc"):
+                    emit(R, {"cfg": cfg, "warm": sh & 1, "pre": {"x": dict(x1, id=nid()), "script": s1},
+                             "x": dict(x2, id=nid()), "script": s2})
+    # ---- budget-exact recovery: k consecutive errors on one block (stride 1: the recovery block fails as well, stride 2:
+    # the repeated I-block fails again), k = 2 .. budget + 1
+    for ci, fwi in enumerate(PAIR_FWI[(sh + 1) % 4] + PAIR_FWI[(sh + 2) % 4] if thorough else PAIR_FWI[(sh + 1) % 4]):
+        cfg = plain_cfg(kind, fsci, fwi, salt=sh + ci)
+        b = budget(fwi)
+        for cb, rb in ((1, 1), (2, 2), (3, 1), (1, 3)):
+            x = shape(cfg, cb, rb, via="send_apdu" if (cb == 1 and ci & 1) else "transceive")
+            if x["via"] == "send_apdu":
+                x.update({"clen": 1, "mrl": 0, "check": True})
+            nb = nblocks(cfg, x)
+            emit(R, {"cfg": cfg, "x": dict(x, id=nid()), "warm": ci & 1})
+            for p in range(nb):
+                for k in range(2, b + 2):
+                    for stride in (1, 2):
+                        for ks in ["L" * k, "l" * k, "C" * k, "c" * k, "".join(rng.choice("LlCc") for _ in range(k))]:
+                            emit(R, {"cfg": cfg, "x": dict(x, id=nid()), "warm": p & 1,
+                                     "script": [[p + j * stride, ks[j]] for j in range(k)]})
+                            R.count("burst_scripts")
+    # ---- a fault free exchange succeeds at every FWI (retry budget 0 included)
+    for fwi in range(15):
+        cfg = plain_cfg(kind, fsci, fwi, salt=fwi)
+        for cb, rb in ((1, 1), (2, 2), (3, 3)):
+            emit(R, {"cfg": cfg, "x": shape(cfg, cb, rb), "warm": fwi & 1})
+    # ---- storm cards: endless S(WTX), R(ACK) with the other block number for every I-block, every I-block lost
+    for ci, fwi in enumerate((4, 11, 13) if thorough else (FWI_CYCLE[sh % len(FWI_CYCLE)],)):
+        cfg = plain_cfg(kind, fsci, fwi, salt=sh)
+        for cb, rb in ((1, 1), (2, 2)):
+            for storm in ("wtx", "rack", "iloss"):
+                for sf in range(cb + rb - 1 if storm == "wtx" else cb):
+                    emit(R, {"cfg": cfg, "x": shape(cfg, cb, rb), "warm": sf & 1, "storm": storm, "storm_from": sf,
+                             "wtxm": rng.choice([1, 59]), "follow": False})
+    # ---- long command chains: a chained (non-final) I-block lost on the way to the card, every chain length
+    for fs in ((0, 1, 2) if thorough else (sh % 3,)):
+        cfg = plain_cfg(kind, fs, (4, 0, 8, 9, 10, 11, 2, 7)[(sh + fs) % 8], salt=sh)        # retry budget >= 1
+        mc = pcd_chunk(cfg)
+        for n in range(2, 25):
+            x = {"via": "transceive", "clen": rng.randrange((n - 1) * mc + 1, n * mc + 1), "rlen": rng.choice([2, 20]), "id": nid()}
+            where = sorted(set(range(n - 1)) if thorough else {0, n - 2, rng.randrange(n - 1)})
+            for p in where:
+                for k in "LC":
+                    emit(R, {"cfg": cfg, "x": dict(x, id=nid()), "warm": n & 1, "script": [[p, k]]})
+                    R.count("long_chain_loss_cases" if n > 10 else "short_chain_loss_cases")
+    # ---- waiting time extension, timed: the card answers at the end of the FWT x WTXM it asked for
+    tf = [(12, 0, 9), (14, 4, 11), (13, 8, 10), (12, 1, 5)][sh % 4]
+    for fwi in (tf + (14, 12, 4, 0) if thorough else tf):
+        cfg = plain_cfg(kind, fsci, fwi, salt=sh, timed=True)
+        x = shape(cfg, 2, 2)
+        for w in range(3):
+            for wtxm in (1, 2, 31, 59):
+                for pl in (0, 1 + (wtxm + w) % 3):
+                    emit(R, {"cfg": cfg, "x": dict(x, id=nid()), "warm": w & 1, "wtx": [w], "wtxm": wtxm, "wtx_pl": pl,
+                             "wtx_rounds": 1 + (wtxm & 1), "wtx_timed": True})
+
+
+def _no_ids(o):
+    if isinstance(o, dict):
+        return {k: _no_ids(v) for k, v in o.items() if k != "id"}
+    if isinstance(o, (list, tuple)):
+        return [_no_ids(v) for v in o]
+    return o
 
 
 def emit(R, case):
@@ -572,13 +903,11 @@ def emit(R, case):
     if len(res) != 3:
         return
     viol, nontrivial, frames = res
-    key = (tuple(sorted((k, str(v)) for k, v in case["cfg"].items())), tuple(sorted((k, str(v)) for k, v in case["x"].items() if k != "id")),
-           tuple(map(tuple, case.get("script", []))), tuple(case.get("wtx", [])), case.get("dead_from"), case.get("warm", 0))
-    R.case(key, nontrivial=nontrivial)
+    R.case(_no_ids(case), nontrivial=nontrivial)
     return frames
 
 
-def sweep(R, cfg, x, max_faults, max_frames, warm=0, wtx=(), kinds="LlCc"):
+def sweep(R, cfg, x, max_faults, max_frames, warm=0, wtx=(), kinds="LlCc", extra=None):
     """exhaustive scripts with up to max_faults faults over the frame positions of this exchange"""
     nb = nblocks(cfg, x) + len(wtx)
     if nb > max_frames:
@@ -592,6 +921,8 @@ def sweep(R, cfg, x, max_faults, max_frames, warm=0, wtx=(), kinds="LlCc"):
                 case = {"cfg": cfg, "x": x, "warm": warm, "script": [[p, c] for p, c in zip(pos, ks)]}
                 if wtx:
                     case["wtx"] = list(wtx)
+                if extra:
+                    case.update(extra)
                 emit(R, case)
                 n += 1
     R.count("enumerated_scripts", n)
@@ -618,6 +949,11 @@ def run_cfg(desc, R, rng, cfg, ident, primary):
             sweep(R, cfg, x, 1, desc["max_frames"], warm)
         if primary and si < desc["triples_shapes"]:
             sweep(R, cfg, x, 3, 8, warm, kinds="Llc")
+        # a duplicated / late block of the card in place of the expected one, at every position
+        if primary or si < 10:
+            sweep(R, cfg, dict(x, id=next(ident) & 0xFFFF), 1, desc["max_frames"], 1, kinds="d")
+        if thorough and primary and si < 12:
+            sweep(R, cfg, dict(x, id=next(ident) & 0xFFFF), 2, desc["max_frames"], 1, kinds="dl")
     # card gone from frame j, for every j
     for (c, r) in shp[:6 if not thorough else 30]:
         x = make_x(rng, c, r, next(ident) & 0xFFFF)
@@ -636,6 +972,14 @@ def run_cfg(desc, R, rng, cfg, ident, primary):
             for rounds in (1, 2):
                 emit(R, {"cfg": cfg, "x": x, "warm": w & 1, "wtx": [w], "wtxm": rng.choice([1, 2, 59]), "wtx_rounds": rounds})
             sweep(R, cfg, x, 1, desc["max_frames"] + 1, warm=w & 1, wtx=(w,), kinds="Llc")
+            # the card supports the power level indication (b8-b7 of the INF byte of its S(WTX) requests)
+            pl = 1 + (w + nb) % 3
+            emit(R, {"cfg": cfg, "x": dict(x, id=next(ident) & 0xFFFF), "warm": w & 1, "wtx": [w], "wtxm": rng.choice([1, 2, 30, 59]),
+                     "wtx_rounds": 1 + (w & 1), "wtx_pl": pl, "wtx_strict": (w + nb) % 3 != 0})
+            if w == nb // 2:
+                sweep(R, cfg, dict(x, id=next(ident) & 0xFFFF), 1, desc["max_frames"] + 1, warm=1, wtx=(w,), kinds="d")
+                sweep(R, cfg, dict(x, id=next(ident) & 0xFFFF), 1, desc["max_frames"] + 1, warm=w & 1, wtx=(w,), kinds="Llc",
+                      extra={"wtx_pl": pl, "wtxm": 1 + (w * 7 + nb) % 59})
     # empty APDU (an I-block without INF is a legal block)
     if primary:
         emit(R, {"cfg": cfg, "x": {"via": "transceive", "clen": 0, "rlen": 0, "id": 0}, "warm": 0, "follow": False})
